@@ -301,6 +301,12 @@ def run(tier):
     chk.cov['distribution'] = stats
     chk.cov['corpus_files'] = len(corpus)
     chk.cov['token_streams_compared'] = len(lines)
+    # the character-level front end (regular expressions regenerated from the lexer object, hand-modelled rule functions, token filter
+    # with its feedback, LALR driver on the regenerated tables) against the real lexer / parser on TEXT
+    import front
+    ntexts, fdis = front.run(chk, rng, tier, want=('raw', 'filtered'))
+    chk.cov['front_end_texts'] = ntexts
+    disagreements.extend(fdis)
     C.tie_verdict(chk, build, missing, disagreements, 'Lessm.Lex.filter (regenerated significant_ws) vs LessLexer.token',
                   'layout variants of all generated programs compiled to identical CSS: no failing input')
     return chk.finish()
